@@ -1,8 +1,18 @@
 #!/bin/bash
-# compile every property file (used by setup and by tools/run_all.sh for a full from-clean verification of all proofs)
+# compile every property file (used by setup and by tools/run_all.sh for a full from-clean verification of all proofs).
+# Done in a scratch directory: generated per-property definitions (genprops/*.v, e.g. DissimGen.v for C04) are compiled first, under the same
+# logical path as the property files.
 cd "$(dirname "$0")/../coq"
+d=$(mktemp -d /tmp/pgaverif_props.XXXXXX)
+trap 'rm -rf "$d"' EXIT
+cp props/C*.v "$d"/
+cp genprops/*.v "$d"/ 2>/dev/null
 rc=0
-for f in props/C*.v; do
-  timeout 900 coqc -Q theories PGA -Q gen PGAgen -Q props PGAprops "$f" > /dev/null 2>&1 || { echo "property file $f does not check"; rc=1; }
+for f in "$d"/*Gen.v; do
+  [ -e "$f" ] || continue
+  timeout 900 coqc -Q theories PGA -Q gen PGAgen -Q "$d" PGAprops "$f" > /dev/null 2>&1 || { echo "generated file $(basename "$f") does not compile"; rc=1; }
+done
+for f in "$d"/C*.v; do
+  timeout 900 coqc -Q theories PGA -Q gen PGAgen -Q "$d" PGAprops "$f" > /dev/null 2>&1 || { echo "property file props/$(basename "$f") does not check"; rc=1; }
 done
 exit $rc
